@@ -18,6 +18,7 @@
  Rp presence      : optional numeric fields are tested with `is None` / membership, never by truthiness (0 is a value).
  Re for-each      : loops that act on every item are never left early (break / return).
  Ra alias mutation: a local that still names a list of another object (not copied) is never mutated in place.
+ Rn arg roles     : a variable named like a parameter of the callee is handed to that parameter (no exchanged roles).
 """
 import ast
 
@@ -731,6 +732,15 @@ def ra_alias(ctx):
     ctx.need('Ra.alias-mutation', 5)
 
 
+def rn_arg_roles(ctx):
+    """Rn: a variable named like a parameter of the callee is handed to that parameter (no exchanged roles such as
+    f(to_degree, from_degree) for def f(from_degree, to_degree)); calls to resolved package functions, canonical form"""
+    from .common import arg_roles_rule
+    from ..memo import scope_funcs
+    n = arg_roles_rule(ctx, 'Rn.arg-roles', scope_funcs(ctx.repo, 'C14'), 'N and M (or start and stop) would be exchanged')
+    ctx.check('Rn.arg-roles', 'argument / parameter name scan', True, 'C14|arg-roles-scan', '', f'{n} argument(s) named like another parameter judged')
+
+
 from ..memo import rule_for as _memo_rule
 
 RULES_MEMO = ('Rm.memo', _memo_rule('C14', 'spectrum availability computed for another state would be reused'))
@@ -740,4 +750,4 @@ from ..presence import rule_for as _presence_rule
 
 RULES_PRESENCE = ('Rp.presence', _presence_rule('C14', 'a user-fixed slot N = 0 (the grid anchor) would be treated as not given and placed elsewhere'))
 
-RULES = [('R7.window', r7_window), ('R6.merge-probe', r6_merge_and_probe), ('R1.fresh', r1_fresh), ('R2.commit', r2_commit), ('R4.slots', r4_slots), ('R5.first-fit', r5_first_fit), RULES_MEMO, RULES_PRESENCE, ('Re.for-each', re_foreach), ('Ra.alias-mutation', ra_alias)]
+RULES = [('R7.window', r7_window), ('R6.merge-probe', r6_merge_and_probe), ('R1.fresh', r1_fresh), ('R2.commit', r2_commit), ('R4.slots', r4_slots), ('R5.first-fit', r5_first_fit), RULES_MEMO, RULES_PRESENCE, ('Re.for-each', re_foreach), ('Ra.alias-mutation', ra_alias), ('Rn.arg-roles', rn_arg_roles)]
